@@ -8,9 +8,11 @@ import (
 	"flag"
 	"fmt"
 	"os"
+	"runtime"
 	"runtime/debug"
 	"sort"
 	"strings"
+	"sync/atomic"
 	"time"
 )
 
@@ -209,6 +211,9 @@ func (c *Ctx) Full() bool { return len(c.Res.Violations) >= c.maxViol }
 
 // Finish writes the result file.
 func (c *Ctx) Finish() {
+	if n := atomic.LoadInt64(&OriginReentries); n > 0 {
+		c.Res.Extra["origin_callback_reentries_masked"] = n
+	}
 	c.Res.Done = c.Res.Next == 0
 	sort.Slice(c.Res.Violations, func(i, j int) bool { return c.Res.Violations[i].Key < c.Res.Violations[j].Key })
 	b, err := json.Marshal(&c.Res)
@@ -301,4 +306,32 @@ func Short(s string, n int) string {
 		return s[:n] + "…"
 	}
 	return s
+}
+
+// OriginReentries counts re-entries of origin-calling callbacks (see InCallAlready).
+var OriginReentries int64
+
+// InCallAlready reports whether the calling function already has an activation further up the
+// goroutine's stack. A callback that calls its origin placeholder uses it as a guard: when the
+// relocated stack check of the placeholder fires (stack growth, or a preemption request that
+// poisons the stack guard) the runtime resumes at the *patched* entry and the callback is entered a
+// second time (C03's known finding). Checks of other properties must not trip over that: the
+// re-entered activation just forwards to the origin and the event is counted.
+func InCallAlready() bool {
+	var pcs [96]uintptr
+	n := runtime.Callers(2, pcs[:])
+	if n < 2 {
+		return false
+	}
+	f0 := runtime.FuncForPC(pcs[0] - 1)
+	if f0 == nil {
+		return false
+	}
+	for _, pc := range pcs[1:n] {
+		if f := runtime.FuncForPC(pc - 1); f != nil && f.Entry() == f0.Entry() {
+			atomic.AddInt64(&OriginReentries, 1)
+			return true
+		}
+	}
+	return false
 }
